@@ -239,9 +239,15 @@ class Ctx:
         if z3.is_true(goal):
             self.obls.append(Obl(name, self.path_id(), "proved", 0.0, "simplify", detail, kind, top=top))
             return True
-        r, m = self._check(z3.Not(goal))
-        backend = "z3"
+        r, m, backend = z3.unknown, None, "z3"
+        if getattr(self.prog, "cvc5_first", False):
+            r2 = self.prog.second_opinion(self.pc + [z3.Not(goal)])
+            if r2 is not None and r2[1] != z3.unknown:
+                backend, r, m = r2
         if r == z3.unknown:
+            r, m = self._check(z3.Not(goal))
+            backend = "z3"
+        if r == z3.unknown and not getattr(self.prog, "cvc5_first", False):
             r2 = self.prog.second_opinion(self.pc + [z3.Not(goal)])
             if r2 is not None:
                 backend, r, m = r2
